@@ -534,8 +534,8 @@ def _flat(text: str) -> str:
 
 def _need(ctx: Ctx, oid: str, rule: str, f: Func, what: str, frags: list[str], detail: str = ""):
     """obligation stated as a set of statement groups that must all be present in the (surface-normalised) function"""
-    t = _flat(ast.unparse(f.node))
-    missing = [fr.strip().split("\n")[0] for fr in frags if _flat(fr) not in t]
+    t = ast.unparse(f.node)  # BlockText: statement groups are matched at any nesting depth, block structure kept
+    missing = [fr.strip().split("\n")[0] for fr in frags if fr not in t]
     ctx.ob(oid, rule, f, what, not missing, (f"not found: `{missing[0]}`" + (f" (+{len(missing) - 1})" if len(missing) > 1 else "") + (". " + detail if detail else "")) if missing else "", node=f.node)
 
 
